@@ -363,6 +363,8 @@ def walk_no_nested(node):
 def body_nodes(func_node):
     """All nodes in a function body, excluding nested defs."""
     for st in func_node.body if not isinstance(func_node, ast.Lambda) else [func_node.body]:
+        if isinstance(st, (ast.FunctionDef, ast.AsyncFunctionDef, ast.ClassDef)):
+            continue
         stack = [st]
         while stack:
             n = stack.pop()
